@@ -119,6 +119,20 @@ func TestVerifC08(t *testing.T) {
 	}
 }
 
+const c08DHCPConf = `dhcp:
+  enabled: false
+  interface_name: lo
+  local_domain_name: lan
+  dhcpv4:
+    gateway_ip: 127.0.9.1
+    subnet_mask: 255.255.255.0
+    range_start: 127.0.9.100
+    range_end: 127.0.9.150
+    lease_duration: 86400
+    icmp_timeout_msec: 0
+    options: []
+`
+
 func c08Config(rep *verifkit.Report, rng *rand.Rand, up *sysUpstream, ci int) {
 	anonymize := ci%2 == 1
 	refuseAny := rng.Intn(2) == 0
@@ -131,6 +145,7 @@ func c08Config(rep *verifkit.Report, rng *rand.Rand, up *sysUpstream, ci int) {
 	}
 	in, err := sysStart("", sysConfOpts{
 		UpstreamPort: up.Port, QLogMemSize: []int{5000, 40}[ci%2], BindHost: bindHost,
+		ExtraTop: map[bool]string{true: c08DHCPConf, false: ""}[ci%3 == 0],
 		TLS:      "  enabled: false\n  allow_unencrypted_doh: true\n",
 		ExtraDNS: fmt.Sprintf("  refuse_any: %v\n", refuseAny),
 	})
@@ -219,6 +234,20 @@ func c08Config(rep *verifkit.Report, rng *rand.Rand, up *sysUpstream, ci int) {
 		return
 	}
 	rep.Class("configurations")
+	if ci%3 == 0 {
+		// Runtime information about addresses inside the flagged CIDR client's
+		// network: static DHCP leases (the only source that works for loopback
+		// addresses; reverse DNS skips them).
+		okL := 0
+		for _, ip := range []string{"127.0.9.4", "127.0.9.200"} {
+			if st, _, aerr := in.API("POST", "/control/dhcp/add_static_lease", map[string]any{"mac": "aa:bb:cc:00:09:" + map[string]string{"127.0.9.4": "04", "127.0.9.200": "c8"}[ip], "ip": ip, "hostname": "lease-" + strings.ReplaceAll(ip, ".", "-")}); aerr == nil && st == 200 {
+				okL++
+			}
+		}
+		if okL == 2 {
+			rep.Class("configurations_with_runtime_information_about_addresses_of_the_flagged_cidr_client")
+		}
+	}
 	if anonymize {
 		rep.Class("configurations_anonymised")
 	}
@@ -375,6 +404,27 @@ func c08Config(rep *verifkit.Report, rng *rand.Rand, up *sysUpstream, ci int) {
 		}
 		if cl != nil && (cl.IgnoreQLog || cl.IgnoreStats) {
 			rep.Class("queries_from_flagged_client_by_" + map[bool]string{true: "clientid", false: "address"}[q.ClientID != "" && (cl == &clients[2] || cl == &clients[3])])
+		}
+	}
+	// Names on both ignore lists that a rewrite maps to a canonical name (not
+	// on any list) whose upstream exchange fails: nothing of such a request -
+	// neither name - may be recorded.  (The canonical name carries the same
+	// unique label, so the absence checks below cover it.)
+	for k := 0; k < 2; k++ {
+		u := fmt.Sprintf("cnq%d-%s", k, tag)
+		q := &c08Query{Unique: u, Src: "127.0.4.1", Qtype: dns.TypeA, Via: []string{"udp", "tcp"}[k], Anon: anonNow, Logged: false, Counted: false}
+		q.Name = u + ".bothign-" + tag + ".verif.example"
+		if st, _, aerr := in.API("POST", "/control/rewrite/add", map[string]any{"domain": q.Name, "answer": u + ".failing.verif.example"}); aerr != nil || st != 200 {
+			continue
+		}
+		resp, qerr := sysQuery(in, q.Src, q.Via == "tcp", q.Name, q.Qtype, 15*time.Second)
+		if q.Answered = qerr == nil && resp != nil; q.Answered {
+			qs = append(qs, q)
+			rep.Eval(true, fmt.Sprintf("%d|rewritten-ignored-name-with-failing-upstream|%d", ci, k))
+			rep.Class("queries_for_ignored_names_rewritten_to_a_name_whose_upstream_fails")
+			if resp.Rcode == dns.RcodeServerFailure {
+				rep.Class("queries_for_ignored_names_rewritten_to_a_name_whose_upstream_fails_answered_servfail")
+			}
 		}
 	}
 	// Two late queries carrying the same ClientID that no persistent client
